@@ -422,6 +422,40 @@ def rule_multipass_lines(ctx, rep, rule_id="R-MULTIPASS-LINES"):
         raise AnalysisError("no registered transformer enables multiple passes (sql-parameterization confirmed by hand)")
 
 
+def rule_no_line_prune(ctx, rep):
+    rep.rule(
+        "R-NO-LINE-PRUNE",
+        "no `visit_<Node>` hook of a registered transformer (or of the shared modifier / mixin classes) decides whether to descend into a node "
+        "from the user's line includes / excludes: the position reported for a compound node (function, class, `with`, `if`) covers its header "
+        "only, so pruning by it hides permitted lines in the body, and `path:line` patterns are about the edited construct, not its ancestors",
+        min_instances=5,
+    )
+    LINE_SOURCES = ("filter_by_path_includes_or_excludes", "match_line", "line_include", "line_exclude", "node_is_selected_by_line")
+    closure = {q for q, c_ in ctx.prog.classes.items() if c_.module.name.startswith(("core_codemods.", "codemodder.codemods", "codemodder.utils"))
+               and not c_.module.name.startswith("codemodder.codemods.test")}
+    n = 0
+    for cq in sorted(closure):
+        c = ctx.prog.classes[cq]
+        # helper predicates of the class that consult the line filter (one level)
+        line_helpers = {name for name, m in c.methods.items()
+                        if any((isinstance(x, ast.Attribute) and x.attr in LINE_SOURCES) for x in ast.walk(m.node)) and not name.startswith(("leave_", "visit_"))}
+        for name, m in c.methods.items():
+            if not name.startswith("visit_"):
+                continue
+            n += 1
+            bad = None
+            r = ctx.resolver(m)
+            for rt in [x for x in walk_no_nested(m.node) if isinstance(x, ast.Return) and x.value is not None]:
+                v = r.expand(rt.value) if isinstance(rt.value, ast.Name) else rt.value
+                for x in ast.walk(v):
+                    if isinstance(x, ast.Attribute) and (x.attr in LINE_SOURCES or (x.attr in line_helpers and isinstance(x.value, ast.Name) and x.value.id == "self")):
+                        bad = rt
+            rep.check("R-NO-LINE-PRUNE", m.qname, m.loc(bad), bad is None, "descent-independent-of-lines",
+                      f"`{unparse(bad)[:70]}` prunes the traversal by the user's line patterns: permitted lines inside the skipped node are never visited" if bad is not None else "")
+    if n < 5:
+        raise AnalysisError(f"only {n} visit_* hooks found in the visitor classes")
+
+
 def check(ctx, rep):
     rep.explanation = (
         "All 101 registered codemods' transformer classes (71 classes + the helper visitors they drive) are analysed with the "
@@ -441,6 +475,7 @@ def check(ctx, rep):
     rule_framework_dispatch_keeps_updates(ctx, rep, "R-DISPATCH-KEEPS-UPDATES")
     rule_gate_unit(ctx, rep)
     rule_multipass_lines(ctx, rep)
+    rule_no_line_prune(ctx, rep)
     from .c06 import rule_rule_keyed
 
     # 'permitted lines are still fixed': the line patterns are applied to the construct that is edited (the transformers' gates), never to the
